@@ -194,9 +194,10 @@ class Peek(Terminal):
         peeked = gen.new_temp("peek")
         gen.writeln(f"{peeked} = state.peek()")
 
-        gen.writeln(
-            f"if {peeked} is not None and state.input.startswith({peeked}, state.pos):"
-        )
+        gen.writeln(f"if {peeked} is None:")
+        with gen.block():
+            gen.writeln(f"{matched_var} = False")
+        gen.writeln(f"elif state.input.startswith({peeked}, state.pos):")
         with gen.block():
             gen.writeln(f"state.pos += len({peeked})")
             gen.writeln(f"{matched_var} = True")
@@ -299,9 +300,10 @@ class Pop(Terminal):
         peeked = gen.new_temp("peek")
         gen.writeln(f"{peeked} = state.peek()")
 
-        gen.writeln(
-            f"if {peeked} is not None and state.input.startswith({peeked}, state.pos):"
-        )
+        gen.writeln(f"if {peeked} is None:")
+        with gen.block():
+            gen.writeln(f"{matched_var} = False")
+        gen.writeln(f"elif state.input.startswith({peeked}, state.pos):")
         with gen.block():
             gen.writeln("state.user_stack.pop()")
             gen.writeln(f"state.pos += len({peeked})")
